@@ -216,12 +216,15 @@ def run(tier, seed, rep):
         rep.add_many(res)
     from . import c11_settings
     ns = c11_settings.run_part(tier, seed, rep)
-    cov = dict(evaluations=total + nt + ne + ns, distinct_nontrivial=nov,
+    from . import c11_overlap
+    no = c11_overlap.run_part(tier, seed, rep)
+    cov = dict(evaluations=total + nt + ne + ns + no, distinct_nontrivial=nov, overlapping_poll_schedules=no,
                rule='per sensor: own-register contents as in C12 (exhaustive per 16-bit field for eco-mode / schedule '
                     'groups, per byte for timestamps) through Inverter._map_response; whole-block fills (all-00, all-FF, '
                     'sentinel mixes, seed contexts) through both Modbus framings; ES runtime/settings answers of every '
                     'announced length 0..255 through the real API on the real transport; ET/DT/ES settings reads through '
-                    'the device model; non-trivial = contents the reference decoder calls uninterpretable',
+                    'the device model; overlapping polls of one object, the later call starting after every number k of requests of '
+                    'the first (c11_overlap); non-trivial = contents the reference decoder calls uninterpretable',
                table_fills=nt, es_length_cases=ne, settings_api_cases=ns, exhaustive=full,
                samples=[sample_sensor('ET', 'all_settings', 'eco_mode_1', '0000173bffecff80'),
                         sample_sensor('ET', 'settings_arm_fw_19', 'eco_mode_1', '0000173bff7fffec00641000'),
@@ -254,5 +257,8 @@ def replay(r):
             if name == r['fill']:
                 o = map_outcome(t.response(pl), t.sensors)
                 return dict(outcome=str(o)[:200], violations=[o[1]] if o[0] == 'raised' else [])
+    if r['kind'] == 'overlap':
+        from . import c11_overlap
+        return c11_overlap.replay(r)
     from . import c11_settings
     return c11_settings.replay(r)
